@@ -98,7 +98,9 @@ class Decompiler:
 
         for g, w, p in section:
             wn = check_or_add(w)
-            if isinstance(g, gates.X):
+            if isinstance(g, gates.I):
+                continue
+            elif isinstance(g, gates.X):
                 exps[wn[0]] = Not(exps[wn[0]])
             elif isinstance(g, gates.CX):
                 exps[wn[1]] = Xor(exps[wn[0]], exps[wn[1]])
